@@ -264,10 +264,11 @@ func buildReverseSearchers(
 
 	case UseReverseSuffixSet:
 		suffixLiterals := extractor.ExtractSuffixes(re)
-		searcher, err := NewReverseSuffixSetSearcher(nfaEngine, suffixLiterals, dfaConfig, hasDotStarPrefix(re))
+		searcher, err := NewReverseSuffixSetSearcher(nfaEngine, suffixLiterals, dfaConfig, isDotStarLiteralSet(re, suffixLiterals))
 		if err != nil {
 			result.finalStrategy = UseBoth
 		} else {
+			searcher.SetLineBounded(!canMatchNewline(re))
 			result.reverseSuffixSetSearcher = searcher
 		}
 
